@@ -3,8 +3,8 @@ Python's str as data, which is faithful as long as the library's method body rea
 `return self._s.<same name>(<the same parameters, in order>)` (queries) or
 `obj = self if inplace else self.copy(); obj._s = obj._s.<same name>(); return obj` (case transforms).
 This module reads /repo's source with the ast module and reports every method of the list whose body no
-longer has that shape.  A report is not a violation; it means the tie for that method is broken, and the
-check then searches harder for a failing input."""
+longer has that shape.  A report is neither a violation nor an alarm: it is recorded in the evidence, and the tie for
+that method is then only the differential run of C10 (every delegated method on every generated text against str)."""
 import ast, os
 
 QUERIES = ['count', 'find', 'rfind', 'index', 'rindex', 'endswith', 'isalnum', 'isalpha', 'isascii', 'isdecimal', 'isdigit',
